@@ -15,7 +15,7 @@ The semantic property you must break:
 {prop}-----
 
 Your task: make ONE realistic source change to the package under /tmp/seed-{pid}/pytableaux (a plausible refactoring slip, optimisation, off-by-one, forgotten case, wrong inherited rule, stale cache ... -- not sabotage that any use would expose at once) such that:
- 1. the package still imports and the existing test suite still passes unchanged:  cd /tmp/seed-{pid} && PYTHONDONTWRITEBYTECODE=1 /venv/bin/python -m pytest -q -p no:cacheprovider -x -n 8 --timeout=900 --deselect test/test_web.py   (expect ~11270 passed; test/test_web.py errors are pre-existing and irrelevant). Do not edit anything under test/.
+ 1. the package still imports and the existing test suite still passes unchanged:  cd /tmp/seed-{pid} && PYTHONDONTWRITEBYTECODE=1 /venv/bin/python -m pytest -q -p no:cacheprovider -n 8 --timeout=900 --deselect test/test_web.py --deselect test/tools/test_abcs.py   (expect ~11270 passed; test/test_web.py errors and two Enum-slice failures in test/tools/test_abcs.py under this interpreter are pre-existing and irrelevant). Do not edit anything under test/.
  2. the property above is violated, but only when something SPECIFIC happens: a particular interleaving / tie-break order, a multi-step sequence of operations, an unusual input shape, a particular logic among the ~60, a particular option combination, or two cooperating sites that each look fine alone. Ordinary everyday use should not expose it.
  3. you provide a demonstration: a small standalone program /tmp/seed-{pid}-out/demo.py (plain asserts, exit code 0 = property holds, non-zero = violated) that FAILS with your change and PASSES on the unchanged code. Verify both: run it with your change; then undo your change with `git -C /tmp/seed-{pid} diff > /tmp/seed-{pid}-out/patch.diff && git -C /tmp/seed-{pid} apply -R /tmp/seed-{pid}-out/patch.diff`, run it again (must pass), then re-apply with `git -C /tmp/seed-{pid} apply /tmp/seed-{pid}-out/patch.diff`. Do NOT use git stash (the stash is shared between worktrees).
 
